@@ -45,6 +45,8 @@ func init() {
 				ms = append(ms, fromJSON(string(r)).(map[string]interface{}))
 			}
 			c19GobCopy(c, ms)
+		case "copy-usenumber":
+			c19CopyUseNumber(c, k.Docs[0])
 		}
 		resetOptions()
 	}})
@@ -454,10 +456,41 @@ func c19GobCopy(c *Ctx, ms []map[string]interface{}) {
 	}
 }
 
+// c19CopyUseNumber: a Map decoded under JsonUseNumber holds json.Number values; its Copy, made under the same
+// setting, is deeply equal to it (same type, same digits), and shares no container with it.
+func c19CopyUseNumber(c *Ctx, doc string) {
+	cas := func() interface{} { return c19Case{Kind: "copy-usenumber", Docs: []string{doc}} }
+	mxj.JsonUseNumber = true
+	defer func() { mxj.JsonUseNumber = false }()
+	m, err := mxj.NewMapJson([]byte(doc))
+	if err != nil {
+		c.Violate("Map.Copy", "copy-equal", "copy", cas, nil, fmt.Sprintf("NewMapJson(%s) under JsonUseNumber: %v", doc, err))
+		return
+	}
+	before := dump(map[string]interface{}(m))
+	var cp mxj.Map
+	st, pan := protect(func() { cp, err = m.Copy() })
+	c.S.Transitions++
+	c.S.Validated++
+	if pan || err != nil || !deepEq(map[string]interface{}(m), map[string]interface{}(cp)) || dump(map[string]interface{}(m)) != before {
+		c.Violate("Map.Copy", "copy-equal", "copy", cas, nil, fmt.Sprintf("under JsonUseNumber: map=%s copy=%s err=%v %s", before, dump(map[string]interface{}(cp)), err, st))
+		return
+	}
+	a, b := map[uintptr]bool{}, map[uintptr]bool{}
+	rt.Containers(map[string]interface{}(m), a)
+	rt.Containers(map[string]interface{}(cp), b)
+	for p := range a {
+		if b[p] {
+			c.Violate("Map.Copy", "copy-shares-structure", "copy", cas, nil, fmt.Sprintf("map=%s: the copy shares a map or list with the original", before))
+			return
+		}
+	}
+}
+
 func c19Run(c *Ctx) {
 	mustBeDefault(c)
 	mxj.XMLEscapeChars(true)
-	c.S.Rule = "cases = (list of 1..3 Maps, writer, indent, reader, fault): XML Maps decoded from 6 documents (attributes, repeated siblings, mixed content, special characters), JSON Maps from 6 objects (strings with braces, quotes, backslashes incl. a trailing escaped backslash, nested lists/maps, non-null scalars), plus lists that hold large documents (0.6 to 9 KB) before and between small ones (intact and 4 truncation offsets); writers XmlFile, XmlFileIndent, JsonFile, JsonFileIndent (default and safe) with (prefix, indent) pairs {(\"\", 2 spaces), (\"\", tab), (space, space), (tab, U+3000)}; readers NewMapsFromXmlFile[Raw], NewMapsFromJsonFile[Raw]; faults: none, EVERY truncation offset, EVERY single-byte corruption offset x {X, <, {, }, comma, quote, 0xFF}, missing file, directory. Oracle: intact => same count and order, each Map equal to the decode of its own encoding (JSON: the original), Raw contains the document text; truncation => error together with exactly the Maps wholly before the cut (clean end at a boundary); corruption => the Maps wholly before the fault are returned and equal, and for XML count/error agree with a reference sequential reader built on encoding/xml; unreadable file => error. Gob: all Maps encoded first, then all decoded (deep-equal up to nil-vs-empty); Copy: deep-equal, receiver unchanged, no shared container identity. non-trivial = faulted or intact read executed."
+	c.S.Rule = "cases = (list of 1..3 Maps, writer, indent, reader, fault): XML Maps decoded from 6 documents (attributes, repeated siblings, mixed content, special characters), JSON Maps from 6 objects (strings with braces, quotes, backslashes incl. a trailing escaped backslash, nested lists/maps, non-null scalars), plus lists that hold large documents (0.6 to 9 KB) before and between small ones (intact and 4 truncation offsets); writers XmlFile, XmlFileIndent, JsonFile, JsonFileIndent (default and safe) with (prefix, indent) pairs {(\"\", 2 spaces), (\"\", tab), (space, space), (tab, U+3000)}; readers NewMapsFromXmlFile[Raw], NewMapsFromJsonFile[Raw]; faults: none, EVERY truncation offset, EVERY single-byte corruption offset x {X, <, {, }, comma, quote, 0xFF}, missing file, directory. Oracle: intact => same count and order, each Map equal to the decode of its own encoding (JSON: the original), Raw contains the document text; truncation => error together with exactly the Maps wholly before the cut (clean end at a boundary); corruption => the Maps wholly before the fault are returned and equal, and for XML count/error agree with a reference sequential reader built on encoding/xml; unreadable file => error. Gob: all Maps encoded first, then all decoded (deep-equal up to nil-vs-empty); Copy: deep-equal, receiver unchanged, no shared container identity - also for Maps decoded under JsonUseNumber (json.Number leaves keep type and digits, incl. integers beyond 2^53 and exponents beyond float64). non-trivial = faulted or intact read executed."
 	c.S.Assumptions = []string{"gob cannot distinguish nil from empty containers (encoding/gob)", "callers register map[string]interface{} and []interface{} with encoding/gob (its contract)"}
 	xmlDocs := []string{`<a/>`, `<a x="1">t</a>`, `<r><b>&lt;1&gt; &amp; "q"</b><a/></r>`, `<r><a>1</a><b/><a>2</a></r>`, `<r y="2">m<c>v</c></r>`, `<doc><k n="1">é</k></doc>`}
 	jsonDocs := []string{`{"a":1}`, `{"a":"}{\""}`, `{"a":"x\\"}`, `{"a":{"b":[1,{"c":"]"}]},"d":true}`, `{"k":"<&>","l":["s",2.5,false]}`, `{"e":"\\\"{"}`, `{"p":"C:\\dir\\ "}`, `{}`}
@@ -579,6 +612,16 @@ func c19Run(c *Ctx) {
 		c.S.Schedules++
 		c19GobCopy(c, ms)
 	})
+	// Copy of Maps decoded under JsonUseNumber (json.Number leaves: digits and type are kept)
+	for _, d := range append(append([]string{}, gm...), `{"n":1.10,"big":12345678901234567890,"l":[1,2.50,{"e":1e400}],"s":"1.10"}`, `{"a":{"k":0.1000},"b":[-0,9007199254740993]}`) {
+		if !c.Mine() {
+			continue
+		}
+		c.S.States++
+		c.S.Evaluations++
+		c.S.Schedules++
+		c19CopyUseNumber(c, d)
+	}
 	resetOptions()
 }
 
